@@ -56,6 +56,7 @@ def generate(args):
         fx = FuncExec(eng, qual, c, module, fn, cls)
         res["never_returns"] = (list(c.post) == ["False"])
         obs = fx.run()
+        res["callees"] = sorted(getattr(fx, "applied_contracts", ()))
         for ob in obs:
             text, nparts = serialize(eng, ob)
             rtext = None
